@@ -54,6 +54,7 @@ package source
 //@   ghost incrG bool = false
 //@   ghost contG int = 0
 //@   requires datasetSource != nil
+//@   requires [callers-hold-no-lock-at-or-above-the-namespace-lock] forall l int :: has($held, l) ==> lockLevel(l) < 5
 //@   dyncall processEntities pure
 //@   at call ProcessChanges#2
 //@     ghost incrG := true
@@ -458,8 +459,15 @@ package source
 //@ assumed (source.DatasetContinuation).GetToken
 //@   pure
 //@ unit (*HTTPDatasetSource).ReadEntities
-//@   prop C11 C10
+//@   prop C11 C10 C15
 //@   ghost closingG bool = false
+//@   ghost pageParserG *server.EntityStreamParser = nil
+//@   at call NewEntityStreamParser#1
+//@     ghost pageParserG := $result
+//@   at call Do#1 before
+//@     assert [C11:the-request-is-bound-to-the-runs-context-so-stopping-the-run-ends-a-blocked-read] reqCtxOf($arg1) == old(ctx) || ctxUnder(reqCtxOf($arg1), old(ctx))
+//@   at call ParseStream#1 before
+//@     assert [C15:every-response-is-parsed-by-a-new-parser-so-no-namespace-context-is-carried-over-from-an-earlier-page] pageParserG != nil && $arg0 == pageParserG
 //@   requires httpDatasetSource != nil && httpDatasetSource.Store != nil && httpDatasetSource.Store.NamespaceManager != nil && !has($held, addrOf(httpDatasetSource.Store.NamespaceManager.lock))
 //@   requires [callers-hold-no-lock-at-or-above-the-namespace-lock] forall l int :: has($held, l) ==> lockLevel(l) < 5
 //@   dyncall processEntities preserves Cell.*
